@@ -57,6 +57,33 @@ Theorem c09_kill_query_reachable : forall hs evs,
   exists w k f ic, ctl_ s = Susp w k f ic /\ is_handler f = true /\ executing s = true.
 Proof. exact (kq_reachable B BATCH). Qed.
 
+(* KILL CONNECTION, in EVERY state of the command phase (at the prompt, inside any handler, while an ERR is being written;
+   any plan, buffer, statement table): exactly one write - what was buffered followed by ONE "session was killed" ERR (under
+   the current sequence number at the prompt, under a fresh sequence inside a command) -, then session.close() exactly once
+   (at once, or when the socket accepts data again), then the task ends and the socket and the registry entry are released *)
+Theorem c09_kill_connection_terminates : forall s w k f ic,
+  ctl_ s = Susp w k f ic -> cmd_frame f = true -> dead s = false ->
+  let r := step B BATCH s (EvKill KC) in
+  closes (fst r) = (if paused s then closes s else S (closes s)) /\ buf (fst r) = [] /\
+  (if paused s
+   then snd r = [OWrite (map fst (buf s) ++ [(kc_seq s f, PErr E_SESSION_WAS_KILLED)])] /\
+        ctl_ (fst r) = Susp WDrain [] FKillErr None /\ kill (fst r) = Some KC
+   else snd r = [OWrite (map fst (buf s) ++ [(kc_seq s f, PErr E_SESSION_WAS_KILLED)]); OSess SClose] /\
+        ctl_ (fst r) = Susp (WApp SClose) [] (FClose false) None).
+Proof. exact (kc_terminates B BATCH). Qed.
+
+Theorem c09_kill_connection_resumes : forall s,
+  ctl_ s = Susp WDrain [] FKillErr None ->
+  let r := step B BATCH s EvResume in
+  snd r = [OSess SClose] /\ ctl_ (fst r) = Susp (WApp SClose) [] (FClose false) None /\ closes (fst r) = S (closes s).
+Proof. exact (kc_resumes B BATCH). Qed.
+
+Theorem c09_kill_connection_finishes : forall s o re,
+  ctl_ s = Susp (WApp SClose) [] (FClose re) None ->
+  let r := step B BATCH s (EvApp o) in
+  ctl_ (fst r) = Done /\ closes (fst r) = closes s /\ exists exc, snd r = [OEnd exc; OWriterClose; OCtlRemove].
+Proof. exact (kc_finishes B BATCH). Qed.
+
 (* the hypotheses are met: a connection whose COM_QUERY waits for the application *)
 Example c09_abort_nonvacuous :
   let s := fst (session B BATCH 50 [EvHandshake true true; EvDecide ASuccess; EvApp OVoid; EvPayload CQuery]) in
